@@ -233,10 +233,29 @@ theorem C03_enter_with_kernel_thread (s : St) (n : Nat) (hr : s.r = RPc.enter n)
 /-- **A wake pass is effective**: with `avail ≥ 1` free slots and a non-empty list it invokes the
 `min(avail, #blocked)` OLDEST wakers. -/
 theorem C03_blocked_wake_pass (s : St) (avail : Nat) (hr : s.r = RPc.tryLock avail)
-    (ha : 1 ≤ avail) (hb : s.blocked ≠ []) :
+    (ha : 1 ≤ avail) (hb : s.blocked ≠ []) (hl : s.blockedLock = none) :
     (stepR s).woken = s.woken ++ List.take (min avail s.blocked.length) s.blocked ∧
     List.take (min avail s.blocked.length) s.blocked ≠ [] :=
-  ⟨(blocked_wake_pass s avail hr ha hb).1, (blocked_wake_pass s avail hr ha hb).2.1⟩
+  ⟨(blocked_wake_pass s avail hr ha hb hl).1, (blocked_wake_pass s avail hr ha hb hl).2.1⟩
+
+/-- The pass gives up when its `try_lock` finds a future inside its push (`blockedLock = some j`):
+nobody is woken, nothing is lost — every waker is still in the list (`C03_blocked_conservation`) and
+the next pass (the next `Ring::poll`, which since d4303dd does not wait while the list is non-empty)
+takes care of them. -/
+theorem C03_blocked_try_lock_fails (s : St) (avail : Nat) (hr : s.r = RPc.tryLock avail) (j : Nat)
+    (hl : s.blockedLock = some j) :
+    (stepR s).r = RPc.idle ∧ (stepR s).blocked = s.blocked ∧ (stepR s).woken = s.woken :=
+  blocked_try_lock_fails s avail hr j hl
+
+/-- Non-vacuity of `C03_blocked_try_lock_fails`: future 2 takes the list lock right before the ring
+thread's `try_lock`; the pass gives up with future 1 still registered and a free slot; future 2
+finishes its push; the next (quiet) poll wakes future 1 (one slot: the oldest). -/
+example :
+    let s := runMv passState [.f 2]
+    Reachable s ∧ s.r = RPc.tryLock 1 ∧ s.blockedLock = some 2 ∧ s.blocked = [1] ∧
+    (stepR s).r = RPc.idle ∧ (stepR s).woken = [] ∧
+    (quietPoll (runMv s [.r, .f 2])).woken = [1] ∧ (quietPoll (runMv s [.r, .f 2])).blocked = [2] :=
+  ⟨passState_reachable.run [.f 2], by decide⟩
 
 /-- **Bounded response**: once no future is in the middle of a poll, `⌈#blocked / len⌉`
 `Ring::poll` calls wake EVERY registered future — although no operation ever completes — and what
@@ -268,7 +287,7 @@ list first and does not wait if a future is waiting for a slot. -/
 /-- A `Ring::poll(None)` that starts while a future is waiting for a slot does not wait in the
 kernel: it submits what is queued and goes on to the wake pass (any state). -/
 theorem C03_blocking_poll_does_not_wait_with_blocked (s : St) (hr : s.r = RPc.idle)
-    (ht : s.H ≤ s.T) (hb : s.blocked ≠ []) :
+    (ht : s.H ≤ s.T) (hb : s.blocked ≠ []) (hl : s.blockedLock = none) (hk : s.kt = false) :
     let s1 := stepR (startPollT s true)
     s1.r = RPc.enter (s.T - s.H) ∧ s1.block = false ∧ (stepR s1).r = RPc.w1 ∧
     (stepR s1).H = s.T := by
@@ -276,19 +295,20 @@ theorem C03_blocking_poll_does_not_wait_with_blocked (s : St) (hr : s.r = RPc.id
     cases hbl : s.blocked with
     | nil => exact absurd hbl hb
     | cons a l => rfl
-  simp [startPollT, hr, stepR, he]
+  simp [startPollT, hr, stepR, he, hl, hk]
   omega
 
 /-- The wait decision, any state: the call may wait in the kernel exactly when it has no timeout
 and the blocked list was empty when it looked (`.start` step); the kernel entry then leads to
 `.waiting` exactly when that was decided, and to the wake pass otherwise. -/
 theorem C03_wait_decision (s : St) :
-    (s.r = RPc.start → ((stepR s).block = true ↔ (s.inf = true ∧ s.blocked = []))) ∧
+    (s.r = RPc.start → s.blockedLock = none →
+      ((stepR s).block = true ↔ (s.inf = true ∧ s.blocked = []))) ∧
     (∀ n, s.r = RPc.enter n →
       ((stepR s).r = RPc.waiting ↔ s.block = true) ∧ ((stepR s).r = RPc.w1 ↔ s.block = false)) := by
   refine ⟨?_, ?_⟩
-  · intro hr
-    cases hb : s.blocked <;> cases hi : s.inf <;> simp [stepR, hr, hb, hi]
+  · intro hr hl
+    cases hb : s.blocked <;> cases hi : s.inf <;> simp [stepR, hr, hb, hi, hl]
   · intro n hr
     cases hb : s.block <;> simp [stepR, hr, hb]
 
@@ -300,16 +320,16 @@ theorem C03_blocking_poll_wakes (s : St) (hq : Quiet s) (hb : s.blocked ≠ []) 
     let t := runMv s [.pollInf, .r, .r, .r, .r, .r, .r]
     t.woken = s.woken ++ s.blocked.take s.len ∧ t.blocked = s.blocked.drop s.len ∧
     t.r = RPc.idle ∧ t.H = s.T := by
-  obtain ⟨len, H, T, subLock, blocked, f, r, woken, pushed, inf, block⟩ := s
-  obtain ⟨_, hr, _, hl, ht, _⟩ := hq
-  simp only at hr hl ht hb
-  subst hr
+  obtain ⟨len, H, T, subLock, blocked, f, r, woken, pushed, inf, block, blockedLock, kt⟩ := s
+  obtain ⟨_, hr, _, hl, ht, _, hbl⟩ := hq
+  simp only at hr hl ht hb hbl
+  subst hr hbl
   have e2 : H + (T - H) = T := by omega
   have e4 : ¬ len = 0 := by omega
   cases blocked with
   | nil => exact absurd rfl hb
   | cons b bs =>
-    simp [runMv, stepMv, startPollT, stepR, e2, e4, drop_min_length]
+    cases kt <;> simp [runMv, stepMv, startPollT, stepR, e2, e4, drop_min_length]
 
 /-- Before d4303dd (`block := inf`, the blocked list is not looked at) the same call waits in the
 kernel with the future still registered, a free slot and nothing that will ever complete: two
@@ -319,7 +339,7 @@ def stepRNoCheck (s : St) : St :=
   | .start => { s with r := .enter (s.T - s.H), block := s.inf }
   | _ => stepR s
 
-def waitTrace : List Mv := [.f 0, .f 0, .f 0, .f 0, .f 0, .f 0, .f 1, .f 1, .f 1]
+def waitTrace : List Mv := [.f 0, .f 0, .f 0, .f 0, .f 0, .f 0, .f 1, .f 1, .f 1, .f 1]
 
 theorem C03_blocking_poll_before_fix_waits :
     (let s := runMv (init 1 2 0) waitTrace
@@ -340,7 +360,7 @@ the wake-up message, or any completion), the NEXT call sees the waiting future, 
 although it has no timeout, submits the queue and wakes the future. -/
 def crossTrace : List Mv :=
   [.f 0, .f 0, .f 0, .f 0, .f 0, .f 0, .pollInf, .r, .r, .f 1, .f 1, .f 1, .f 1, .f 1, .f 1,
-   .f 2, .f 2, .f 2]
+   .f 2, .f 2, .f 2, .f 2]
 
 theorem C03_registration_while_poll_waits :
     let s := runMv (init 1 3 0) crossTrace
